@@ -3,6 +3,7 @@ package in_toto
 import (
 	"context"
 	"crypto/ecdsa"
+	"crypto/ed25519"
 	"crypto/rsa"
 	"crypto/x509"
 	"encoding/hex"
@@ -113,10 +114,18 @@ func validateKeyVal(key Key) error {
 		if err != nil {
 			return err
 		}
+		// crypto/ed25519 panics on keys of the wrong size
+		if len(key.KeyVal.Public) != 2*ed25519.PublicKeySize {
+			return fmt.Errorf("%w: ed25519 public key must be %d bytes", ErrInvalidKey, ed25519.PublicKeySize)
+		}
 		if key.KeyVal.Private != "" {
 			err := validateHexString(key.KeyVal.Private)
 			if err != nil {
 				return err
+			}
+			// a private key is stored either as seed or as seed plus public key
+			if len(key.KeyVal.Private) != 2*ed25519.SeedSize && len(key.KeyVal.Private) != 2*ed25519.PrivateKeySize {
+				return fmt.Errorf("%w: ed25519 private key must be %d or %d bytes", ErrInvalidKey, ed25519.SeedSize, ed25519.PrivateKeySize)
 			}
 		}
 	case rsaKeyType, ecdsaKeyType:
